@@ -62,3 +62,28 @@ Example ex_cycle_refused :
     [("L", {| i_extends := ["J"; "K"]; i_methods := [] |}); ("J", {| i_extends := ["I"]; i_methods := [] |});
      ("K", {| i_extends := ["I"]; i_methods := [] |}); ("I", {| i_extends := []; i_methods := [] |})] = Some t).
 Proof. vm_compute. repeat split; eauto. Qed.
+
+(* ---- call chains: D -> C -> B -> A, every class declares c1 c2 c3, entry c0 only in D.
+   $d->c0() : parent::c1() [runs C::c1, SelfClass := C] : $this->c2() [virtual: D::c2, SelfClass reset]
+   : parent::c3() [from D's parent: C::c3].  If the `$this->` hop kept SelfClass = C (seeded change C08-8), the last
+   hop would resolve from C's parent and run B::c3. *)
+Definition ex_chain : table :=
+  {| classes :=
+       [("A", {| c_extends := None; c_impls := []; c_methods := [mk "c1" false 0; mk "c2" false 0; mk "c3" false 0; mk "s" true 0] |});
+        ("B", {| c_extends := Some "A"; c_impls := []; c_methods := [mk "c1" false 0; mk "c2" false 0; mk "c3" false 0] |});
+        ("C", {| c_extends := Some "B"; c_impls := []; c_methods := [mk "c1" false 0; mk "c2" false 0; mk "c3" false 0; mk "s" true 0] |});
+        ("D", {| c_extends := Some "C"; c_impls := []; c_methods := [mk "c0" false 0; mk "c1" false 0; mk "c2" false 0; mk "c3" false 0] |})];
+     ifaces := [] |}.
+Example ex_chain_wf : wf ex_chain = true.
+Proof. vm_compute. reflexivity. Qed.
+Example ex_chain_run :
+  run_hops ex_chain false "D" "c0" [HParent "c1"; HThis "c2"; HParent "c3"] = Ok (Some ["D"; "C"; "D"; "C"]) /\
+  spec_run_hops ex_chain "D" "c0" [HParent "c1"; HThis "c2"; HParent "c3"] = Some ["D"; "C"; "D"; "C"] /\
+  hops_ok ex_chain true {| s_run := "D"; s_lexc := "D" |} [HParent "c1"; HThis "c2"; HParent "c3"] = true.
+Proof. vm_compute. repeat split; reflexivity. Qed.
+(* parent:: -> static:: keeps the runtime class; self:: -> static:: too (after fix ac7bb5f; before it the model's
+   HSelf set x_static to the lexical class and this chain ended in A::s) *)
+Example ex_chain_static :
+  run_hops ex_chain false "D" "c0" [HParent "c1"; HParent "c1"; HStatic "s"] = Ok (Some ["D"; "C"; "B"; "C"]) /\
+  run_hops ex_chain true "C" "s" [HSelf "s"; HStatic "s"] = Ok (Some ["C"; "C"; "C"]).
+Proof. vm_compute. split; reflexivity. Qed.
